@@ -379,6 +379,8 @@ def qpois(q, mu=1.0, log=False):
     See
     https://stat.ethz.ch/R-manual/R-patched/library/stats/html/Poisson.html
     '''
+    if log:
+        return st.poisson.ppf(np.exp(q), mu=mu)
     return st.poisson.ppf(q, mu=mu)
 
 def rpois(n, mu=1.0, seed=None):
